@@ -1171,6 +1171,30 @@ def r23_rev_enumerate(text):
     return []
 
 
+# ---------------------------------------------------------------- R29 `impl IntoIterator<Item = T>` parameter -> `Vec<T>`
+def r29_into_iter_param(text):
+    """A parameter typed `impl IntoIterator<Item = T>` becomes `Vec<T>`: the function is verified for the finite
+    sequence of items the argument yields (a `for` over an owned Vec is a `for` over `vec.into_iter()`). What is
+    dropped: genericity over the iterator type, i.e. side effects and non-termination of a caller-supplied iterator's
+    `next()` (it cannot touch `self`, which the function holds borrowed). Only parameter position (after `:`)."""
+    m = mask(text)
+    for mt in re.finditer(r":\s*(impl\s+IntoIterator\s*<\s*Item\s*=\s*)", m):
+        lt = m.index("<", mt.start(1))
+        depth, k = 0, lt
+        while k < len(m):
+            if m[k] == "<":
+                depth += 1
+            elif m[k] == ">" and m[k - 1] != "-":
+                depth -= 1
+                if depth == 0:
+                    break
+            k += 1
+        else:
+            raise Unsupported("R29: unbalanced generic arguments")
+        return [Edit(mt.start(1), mt.end(1), "Vec<", "R29")]
+    return []
+
+
 # ---------------------------------------------------------------- R14 const fn
 def r14_const_fn(text):
     m = mask(text)
@@ -1183,7 +1207,7 @@ def r14_const_fn(text):
 # ---------------------------------------------------------------- R15 matches! with binding-free patterns is fine; nothing to do
 
 
-ITERATED = {"R6", "R7", "R10", "R11", "R15", "R16", "R17", "R18", "R19", "R20", "R22", "R23", "R24", "R25", "R27", "R28"}
+ITERATED = {"R6", "R7", "R10", "R11", "R15", "R16", "R17", "R18", "R19", "R20", "R22", "R23", "R24", "R25", "R27", "R28", "R29"}
 
 TABLE = {
     "R1": r1_visibility,
@@ -1212,10 +1236,11 @@ TABLE = {
     "R25": r25_collect_pairs,
     "R27": r27_extend_vec,
     "R28": r28_name_temp_guard,
+    "R29": r29_into_iter_param,
 }
-ORDER = ["R2", "R1", "R1p", "R14", "R4", "R3", "R5", "R6", "R15", "R13", "R11", "R7", "R8", "R12", "R17", "R18", "R19", "R20", "R25", "R22", "R24", "R23", "R27", "R28", "R10", "R16"]
+ORDER = ["R2", "R1", "R1p", "R14", "R4", "R3", "R5", "R6", "R15", "R13", "R11", "R7", "R8", "R12", "R17", "R18", "R19", "R20", "R25", "R22", "R24", "R23", "R27", "R28", "R29", "R10", "R16"]
 
-EXEC_TOUCHING = {"R3", "R4", "R6", "R7", "R8", "R10", "R11", "R12", "R13", "R14", "R15", "R16", "R17", "R18", "R19", "R20", "R21", "R22", "R23", "R24", "R25", "R27", "R28"}
+EXEC_TOUCHING = {"R3", "R4", "R6", "R7", "R8", "R10", "R11", "R12", "R13", "R14", "R15", "R16", "R17", "R18", "R19", "R20", "R21", "R22", "R23", "R24", "R25", "R27", "R28", "R29"}
 
 
 def apply_rewrites(text, enabled, opts=None):
